@@ -12,21 +12,21 @@ Import ListNotations.
 (* ================================================================== merge / flat_map *)
 Inductive mst := MNotYet | MRunning | MLast | MDone.
 Record minput := { mi_script : list nat; mi_k : nat; mi_st : mst }.
-Inductive mev := MI (i v : nat) | MC.
-Record mcfg := { m_reg : list nat;            (* the live-input set (serials in `unscribers`) *)
+Inductive mgev := MI (i v : nat) | MC.
+Record mgcfg := { m_reg : list nat;            (* the live-input set (serials in `unscribers`) *)
                  m_open : bool;               (* the subscriber has not been completed *)
-                 m_log : list mev;
+                 m_log : list mgev;
                  m_in : nat -> minput }.
-Inductive mact :=
+Inductive mgact :=
 | MItem (i : nat)            (* sink_next of input i's next item *)
 | MEnd (i : nat)             (* sink_complete: remove i from the live set and test emptiness, one write-locked step *)
 | MFin (i : nat)             (* the input that saw the set empty completes the subscriber *)
 | MReg (i j : nat).          (* flat_map: inside input i's next callback a new input j is registered (new_observer) *)
 
-Definition mupd (f : nat -> minput) (i : nat) (x : minput) : nat -> minput := fun q => if Nat.eqb q i then x else f q.
+Definition mgupd (f : nat -> minput) (i : nat) (x : minput) : nat -> minput := fun q => if Nat.eqb q i then x else f q.
 Definition remove_nat (i : nat) (l : list nat) : list nat := filter (fun x => negb (Nat.eqb x i)) l.
 
-Definition mstep (c : mcfg) (a : mact) : mcfg :=
+Definition mgstep (c : mgcfg) (a : mgact) : mgcfg :=
   match a with
   | MItem i =>
       let x := m_in c i in
@@ -34,7 +34,7 @@ Definition mstep (c : mcfg) (a : mact) : mcfg :=
       | MRunning => if Nat.ltb (mi_k x) (length (mi_script x))
                     then {| m_reg := m_reg c; m_open := m_open c;
                             m_log := if m_open c then m_log c ++ [MI i (nth (mi_k x) (mi_script x) 0)] else m_log c;
-                            m_in := mupd (m_in c) i {| mi_script := mi_script x; mi_k := S (mi_k x); mi_st := MRunning |} |}
+                            m_in := mgupd (m_in c) i {| mi_script := mi_script x; mi_k := S (mi_k x); mi_st := MRunning |} |}
                     else c
       | _ => c
       end
@@ -44,7 +44,7 @@ Definition mstep (c : mcfg) (a : mact) : mcfg :=
       | MRunning => if Nat.ltb (mi_k x) (length (mi_script x)) then c
                     else let r := remove_nat i (m_reg c) in
                          {| m_reg := r; m_open := m_open c; m_log := m_log c;
-                            m_in := mupd (m_in c) i {| mi_script := mi_script x; mi_k := mi_k x;
+                            m_in := mgupd (m_in c) i {| mi_script := mi_script x; mi_k := mi_k x;
                                                        mi_st := match r with [] => MLast | _ => MDone end |} |}
       | _ => c
       end
@@ -53,26 +53,26 @@ Definition mstep (c : mcfg) (a : mact) : mcfg :=
       match mi_st x with
       | MLast => {| m_reg := m_reg c; m_open := false;
                     m_log := if m_open c then m_log c ++ [MC] else m_log c;
-                    m_in := mupd (m_in c) i {| mi_script := mi_script x; mi_k := mi_k x; mi_st := MDone |} |}
+                    m_in := mgupd (m_in c) i {| mi_script := mi_script x; mi_k := mi_k x; mi_st := MDone |} |}
       | _ => c
       end
   | MReg i j =>
       match mi_st (m_in c i), mi_st (m_in c j) with
       | MRunning, MNotYet =>
           {| m_reg := m_reg c ++ [j]; m_open := m_open c; m_log := m_log c;
-             m_in := mupd (m_in c) j {| mi_script := mi_script (m_in c j); mi_k := mi_k (m_in c j); mi_st := MRunning |} |}
+             m_in := mgupd (m_in c) j {| mi_script := mi_script (m_in c j); mi_k := mi_k (m_in c j); mi_st := MRunning |} |}
       | _, _ => c
       end
   end.
-Definition mrun (acts : list mact) (c : mcfg) : mcfg := fold_left mstep acts c.
+Definition mgrun (acts : list mgact) (c : mgcfg) : mgcfg := fold_left mgstep acts c.
 (* inputs 0..n-1 are registered before any of them is subscribed (merge); later ones wait for MReg (flat_map) *)
-Definition minit (n : nat) (scripts : nat -> list nat) : mcfg :=
+Definition mginit (n : nat) (scripts : nat -> list nat) : mgcfg :=
   {| m_reg := seq 0 n; m_open := true; m_log := [];
      m_in := fun i => {| mi_script := scripts i; mi_k := 0; mi_st := if Nat.ltb i n then MRunning else MNotYet |} |}.
 
-Definition mitems (i : nat) (l : list mev) : list nat :=
+Definition mitems (i : nat) (l : list mgev) : list nat :=
   flat_map (fun e => match e with MI j v => if Nat.eqb j i then [v] else [] | MC => [] end) l.
-Definition mcompletes (l : list mev) : nat := length (filter (fun e => match e with MC => true | _ => false end) l).
+Definition mcompletes (l : list mgev) : nat := length (filter (fun e => match e with MC => true | _ => false end) l).
 
 (* ================================================================== zip *)
 (* register(): push under the write lock; then loop { get(): under the write lock, if every queue is non-empty pop all
@@ -154,32 +154,35 @@ Definition ainit (scripts : nat -> list nat) : acfg :=
   {| a_win := None; a_k := fun _ => 0; a_pc := fun _ => AIdle; a_script := scripts; a_log := [] |}.
 
 (* ================================================================== take *)
-Inductive tpc := TIdle | TGo (emit last : bool) | TEnd.
-Record tcfg := { t_count : nat; t_n : nat; t_open : bool; t_pc : nat -> tpc; t_log : list (option nat) }.   (* Some v = item, None = complete *)
-Inductive tact := TSlot (i v : nat) | TSend (i v : nat) | TComplete (i : nat).
-Definition tkstep (c : tcfg) (a : tact) : tcfg :=
+(* take(count): the slot number nn of an item is decided under one write lock (nn := n; n := n + 1); the item is
+   forwarded outside the lock iff nn < count, and the thread then completes the subscriber iff count <= nn + 1.
+   Any number of upstream threads call take's next concurrently (e.g. the threads of a merge). *)
+Inductive kpc := KIdle | KGo (nn : nat) | KEnd.
+Inductive kev := KItem (nn v : nat) | KDone.
+Record kcfg := { k_count : nat; k_n : nat; k_open : bool; k_pc : nat -> kpc; k_log : list kev }.
+Inductive kact := KSlot (i : nat) | KSend (i v : nat) | KComplete (i : nat).
+Definition kstep (c : kcfg) (a : kact) : kcfg :=
   match a with
-  | TSlot i v =>
-      match t_pc c i with
-      | TIdle => {| t_count := t_count c; t_n := S (t_n c); t_open := t_open c;
-                    t_pc := fupd (t_pc c) i (TGo (Nat.ltb (t_n c) (t_count c)) (Nat.leb (t_count c) (S (t_n c)))); t_log := t_log c |}
+  | KSlot i =>
+      match k_pc c i with
+      | KIdle => {| k_count := k_count c; k_n := S (k_n c); k_open := k_open c; k_pc := fupd (k_pc c) i (KGo (k_n c)); k_log := k_log c |}
       | _ => c
       end
-  | TSend i v =>
-      match t_pc c i with
-      | TGo emit last => {| t_count := t_count c; t_n := t_n c; t_open := t_open c;
-                            t_pc := fupd (t_pc c) i (if last then TEnd else TIdle);
-                            t_log := if emit && t_open c then t_log c ++ [Some v] else t_log c |}
+  | KSend i v =>
+      match k_pc c i with
+      | KGo nn => {| k_count := k_count c; k_n := k_n c; k_open := k_open c;
+                     k_pc := fupd (k_pc c) i (if Nat.leb (k_count c) (S nn) then KEnd else KIdle);
+                     k_log := if Nat.ltb nn (k_count c) && k_open c then k_log c ++ [KItem nn v] else k_log c |}
       | _ => c
       end
-  | TComplete i =>
-      match t_pc c i with
-      | TEnd => {| t_count := t_count c; t_n := t_n c; t_open := false; t_pc := fupd (t_pc c) i TIdle;
-                   t_log := if t_open c then t_log c ++ [None] else t_log c |}
+  | KComplete i =>
+      match k_pc c i with
+      | KEnd => {| k_count := k_count c; k_n := k_n c; k_open := false; k_pc := fupd (k_pc c) i KIdle;
+                   k_log := if k_open c then k_log c ++ [KDone] else k_log c |}
       | _ => c
       end
   end.
-Definition tkrun (acts : list tact) (c : tcfg) : tcfg := fold_left tkstep acts c.
-Definition tkinit (count : nat) : tcfg := {| t_count := count; t_n := 0; t_open := true; t_pc := fun _ => TIdle; t_log := [] |}.
-Definition titems (l : list (option nat)) : nat := length (filter (fun e => match e with Some _ => true | None => false end) l).
-Definition tcompletes (l : list (option nat)) : nat := length (filter (fun e => match e with None => true | _ => false end) l).
+Definition krun (acts : list kact) (c : kcfg) : kcfg := fold_left kstep acts c.
+Definition kinit (count : nat) : kcfg := {| k_count := count; k_n := 0; k_open := true; k_pc := fun _ => KIdle; k_log := [] |}.
+Definition kslots (l : list kev) : list nat := flat_map (fun e => match e with KItem nn _ => [nn] | KDone => [] end) l.
+Definition kdones (l : list kev) : nat := length (filter (fun e => match e with KDone => true | _ => false end) l).
